@@ -62,6 +62,15 @@ def _job(args):
     fails = []
     n = 0
     cc = 'rhombohedral' if setting == 'rhombohedral' else 'standard'
+    # history: the other settings of the same group number are asked first, as a program handling both would do
+    # (the result for this setting must not depend on it)
+    for (name2, setting2, o2, _t) in _tables():
+        if o2.no == o.no and setting2 != setting:
+            try:
+                S.multiplicity([0.1, 0.2, 0.3], sgname=o2.name)
+                S.multiplicity([0.1, 0.2, 0.3], sgno=o2.no, cell_choice='rhombohedral' if setting2 == 'rhombohedral' else 'standard')
+            except Exception:
+                pass
     for (num, den, shift, how) in positions:
         pos = [num[k] / den + shift[k] for k in range(3)]
         exp = oracle(o.rot, t24, (num, den))
@@ -96,7 +105,7 @@ def positions_for(rng, tier):
     grid = list(itertools.product(GRID24, repeat=3))
     if tier == 'quick':
         pts = [(0, 0, 0), (12, 12, 12), (8, 16, 20), (8, 4, 18), (6, 6, 6), (0, 12, 6), (3, 3, 3), (8, 16, 0)]
-        pts += rng.sample(grid, 8)
+        pts += rng.sample(grid, 72)
     else:
         pts = grid
     for p in pts:
@@ -129,7 +138,7 @@ class MultiplicityUnit(Unit):
                 'notes': [], 'validation': None, 'native': None,
                 'bounded': {'name': 'structure.multiplicity_vs_exact_orbit',
                             'what': 'multiplicity(pos, group) == exact orbit size modulo Z^3, by number and by name, for %s'
-                                    % ('the whole 12^3 grid' if tier != 'quick' else 'a stratified sample of the grid (8 fixed + 8 random points)')
+                                    % ('the whole 12^3 grid' if tier != 'quick' else 'a stratified sample of the grid (8 fixed + 72 random points per setting)')
                                     + ' plus the x,x,z / x,2x,z / x,-x,z / general families with generic x and lattice-shifted copies, all 237 settings',
                             'samples': n, 'failures': fails[:3], 'n_failures': len(fails),
                             'failing_tables': sorted({f['table'] + '[' + f['setting'] + ']' for f in fails})}}
